@@ -296,6 +296,8 @@ def p_event(e):
         return '(EDestroy %s)' % cp.z(e['uid'])
     if k == 'restart':
         return 'ERestart'
+    if k == 'foreign':
+        return 'EForeign'
     return 'EOther'
 
 
@@ -454,6 +456,33 @@ class Stack:
         except Exception:
             return False
 
+    def modify_sibling(self, uid, kind, index, new):
+        """ModifyAttribute (KMIP 1.x form) of one multi-valued attribute instance of another object."""
+        if kind == 'group':
+            a = kdrv.attr(AT.OBJECT_GROUP, new, index)
+        elif kind == 'name':
+            a = kdrv.attr(AT.NAME, cattrs.Name.create(new, E.NameType.UNINTERPRETED_TEXT_STRING), index)
+        else:
+            a = kdrv.attr(AT.APPLICATION_SPECIFIC_INFORMATION, {'application_namespace': new, 'application_data': new}, index)
+        r = self.eng.request([kdrv.modify_attribute_v1(str(uid), a)], version=(1, 2), user='alice')
+        return bool(r['items']) and kdrv.ok(r['items'][0])
+
+    def wrapped_get_batch(self, ver, target, wrapping_key):
+        """One request: Get of `target` wrapped under `wrapping_key`, followed by a Create (which commits the session).
+        Returns (wrapped Get succeeded, uid created by the Create or None)."""
+        spec = cobjects.KeyWrappingSpecification(
+            wrapping_method=E.WrappingMethod.ENCRYPT,
+            encryption_key_information=cobjects.EncryptionKeyInformation(
+                unique_identifier=str(wrapping_key),
+                cryptographic_parameters=cattrs.CryptographicParameters(block_cipher_mode=E.BlockCipherMode.NIST_KEY_WRAP)),
+            encoding_option=E.EncodingOption.NO_ENCODING)
+        r = self.eng.request([kdrv.get(str(target), wrap=spec), kdrv.create()], version=ver, user='alice')
+        if r['error'] or len(r['items']) != 2:
+            return False, None
+        g, c = r['items']
+        created = int(kdrv.first_uid(c)) if kdrv.ok(c) else None
+        return kdrv.ok(g), created
+
     def other(self, ver, rng):
         cl = self.clients[ver]
         try:
@@ -518,6 +547,13 @@ class Stack:
 
 # ====================================================================== generators
 ALPHA = 'abcdefghijklmnopqrstuvwxyzABCDEFGHIJKLMNOPQRSTUVWXYZ0123456789 _-./:@'
+
+
+SHARED = ['tier-1', 'backup', 'prod', 'eu-west', 'A', 'z']
+
+
+def g_shared(rng, lo=1, hi=12):
+    return rng.choice(SHARED) if rng.random() < 0.5 else g_str(rng, lo, hi)
 
 
 def g_str(rng, lo=1, hi=12):
@@ -633,17 +669,17 @@ def g_attrs(rng, ver, secret):
     nn = rng.choice([0, 1, 1, 2, 3, 5])
     names = []
     for _ in range(nn):
-        n = g_str(rng)
+        n = g_shared(rng)
         if names and rng.random() < 0.05:
             n = rng.choice(names)
         names.append(n)
     for i, n in enumerate(names):
         idx = i if rng.random() < 0.93 else None
         out.append({'kind': 'name', 'idx': idx, 'v': n, 't': E.NameType.URI.value if rng.random() < 0.08 else E.NameType.UNINTERPRETED_TEXT_STRING.value})
+    for i in range(rng.choice([0, 0, 1, 2, 3, 4])):
+        out.append({'kind': 'group', 'idx': i, 'v': g_shared(rng)})
     for i in range(rng.choice([0, 0, 1, 2, 3])):
-        out.append({'kind': 'group', 'idx': i, 'v': g_str(rng)})
-    for i in range(rng.choice([0, 0, 1, 2])):
-        out.append({'kind': 'asi', 'idx': i, 'ns': g_str(rng), 'd': g_str(rng)})
+        out.append({'kind': 'asi', 'idx': i, 'ns': g_shared(rng), 'd': g_shared(rng)})
     if cls != 'COpaque' or rng.random() < 0.05:
         r = rng.random()
         if r < 0.85:
@@ -840,7 +876,7 @@ VERS = list(KVER)
 def run_history(ctx, rng, der, hid, n_events, big, forced=None):
     """One history on a fresh database; returns the list of events (inputs + observations)."""
     st = Stack(ctx, der, chunk=rng.choice([1, 7, 64, 4096]))
-    events, live, regs = [], [], {}
+    events, live, regs, modified, wrapper = [], [], {}, set(), {}
     forced = list(forced or [])
     try:
         for step in range(n_events):
@@ -885,12 +921,16 @@ def run_history(ctx, rng, der, hid, n_events, big, forced=None):
                 if obs is not None and rng.random() < 0.3:
                     client_side_convert(ctx, st, ver, uid, obs)
             elif r < 0.75:
+                if uid in modified:
+                    continue
                 obs = st.attrs(ver, uid)
                 events.append({'e': 'attrs', 'ver': ver, 'uid': uid, 'obs': obs, 'err': st.last_err})
                 ctx.count('get_attributes.%d.%d' % ver)
                 ctx.case_seen(('attrs', uid, hid, step), nontrivial=True)
                 oracle_attrs(ctx, reg, obs, ver, reg['state'], when, st.last_err)
             elif r < 0.8:
+                if uid in modified:
+                    continue
                 obs = st.attr_list(ver, uid)
                 events.append({'e': 'attrlist', 'ver': ver, 'uid': uid, 'obs': obs})
                 ctx.count('get_attribute_list')
@@ -899,20 +939,57 @@ def run_history(ctx, rng, der, hid, n_events, big, forced=None):
                     ctx.violation({'op': 'GET_ATTRIBUTE_LIST', 'otype': CLASS_OF_SECRET(reg['secret'])},
                                   {'registered': jsonable(reg['secret']), 'attributes': jsonable(reg['attrs']), 'returned': obs, 'expected': exp, 'when': when},
                                   'GetAttributeList names differ from supplied + server-assigned attributes')
-            elif r < 0.86:
+            elif r < 0.85:
                 st.eng.restart()
                 events.append({'e': 'restart'})
                 ctx.count('restart')
-            elif r < 0.91:
+            elif r < 0.89:
                 if reg['secret']['k'] != 'opaque' and reg['state'] == E.State.PRE_ACTIVE.value and st.activate(ver, uid):
                     reg['state'] = E.State.ACTIVE.value
                     events.append({'e': 'activate', 'uid': uid})
                     ctx.count('activate')
-            elif r < 0.95:
+            elif r < 0.92:
                 if len(live) > 1 and reg['state'] == E.State.PRE_ACTIVE.value and st.destroy(ver, uid):
                     live.remove(uid)
                     events.append({'e': 'destroy', 'uid': uid})
                     ctx.count('destroy')
+            elif r < 0.95:
+                # ModifyAttribute of a multi-valued attribute of ANOTHER object: this object's attributes must not move
+                sib = [u for u in live if u != uid and u not in modified]
+                cand = []
+                for u in sib:
+                    for kind in ('group', 'name', 'asi'):
+                        n_inst = len([a for a in regs[u]['attrs'] if a['kind'] == kind])
+                        if n_inst:
+                            cand.append((u, kind, n_inst))
+                if cand:
+                    u, kind, n_inst = rng.choice(cand)
+                    if st.modify_sibling(u, kind, rng.randrange(n_inst), 'renamed-%d' % step):
+                        modified.add(u)
+                        events.append({'e': 'other'})
+                        ctx.count('modify-attribute-on-sibling.%s' % kind)
+            elif r < 0.985:
+                # batch [Get wrapped under an active wrapping key, Create]: the Create's commit must not persist the wrapped bytes
+                targets = [u for u in live if regs[u]['secret']['k'] == 'key' and regs[u]['secret']['cls'] == 'CSym'
+                           and regs[u]['secret']['kb']['kwd'] is None and len(regs[u]['secret']['kb']['value']) in (16, 24, 32, 64)
+                           and u != wrapper.get('uid')]
+                if targets:
+                    if 'uid' not in wrapper:
+                        wsec = {'k': 'key', 'cls': 'CSym', 'kb': {'fmt': E.KeyFormatType.RAW.value, 'value': bytes(range(16)), 'alg': 3, 'len': 128, 'kwd': None}}
+                        wattrs = [{'kind': 'mask', 'idx': 0, 'z': E.CryptographicUsageMask.WRAP_KEY.value | E.CryptographicUsageMask.UNWRAP_KEY.value}]
+                        wuid, _ = st.register((1, 2), wsec, wattrs)
+                        events.append({'e': 'register', 'ver': (1, 2), 'owner': 'alice', 'now': st.eng.clock.t, 'secret': wsec, 'attrs': wattrs, 'obs': wuid})
+                        if wuid is not None and st.activate((1, 2), wuid):
+                            live.append(wuid)
+                            regs[wuid] = {'uid': wuid, 'ver': (1, 2), 'now': st.eng.clock.t, 'secret': wsec, 'attrs': wattrs, 'state': E.State.ACTIVE.value}
+                            events.append({'e': 'activate', 'uid': wuid})
+                            wrapper['uid'] = wuid
+                    if 'uid' in wrapper:
+                        okg, created = st.wrapped_get_batch(ver, rng.choice(targets), wrapper['uid'])
+                        events.append({'e': 'other'})
+                        if created is not None:
+                            events.append({'e': 'foreign'})
+                        ctx.count('batch.wrapped-get+create.%s' % ('ok' if okg else 'refused'))
             else:
                 st.other(ver, rng)
                 events.append({'e': 'other'})
@@ -925,10 +1002,80 @@ def run_history(ctx, rng, der, hid, n_events, big, forced=None):
             obs = st.get(ver, uid)
             events.append({'e': 'get', 'uid': uid, 'obs': obs})
             oracle_get(ctx, regs[uid], obs, ver, 'history %d end' % hid)
+            if uid in modified:
+                continue
             obs = st.attrs(ver, uid)
             events.append({'e': 'attrs', 'ver': ver, 'uid': uid, 'obs': obs})
             oracle_attrs(ctx, regs[uid], obs, ver, regs[uid]['state'], 'history %d end' % hid, st.last_err)
             ctx.cov['evaluations'] += 2
+    finally:
+        st.close()
+    return events
+
+
+def scenario_history(ctx, der):
+    """Scripted history run before the generated ones: objects sharing multi-valued attribute values in different orders, a
+    ModifyAttribute on a sibling, and a batch whose wrapped Get is followed by a committing Create; every object is read back
+    plainly, before and after a re-open."""
+    st = Stack(ctx, der, chunk=7)
+    events, regs = [], {}
+    K = E.KeyFormatType
+
+    def sym(value):
+        return {'k': 'key', 'cls': 'CSym', 'kb': {'fmt': K.RAW.value, 'value': value, 'alg': 3, 'len': 8 * len(value), 'kwd': None}}
+
+    def reg(ver, secret, attrs):
+        st.eng.clock.t += 1
+        uid, err = st.register(ver, secret, attrs)
+        events.append({'e': 'register', 'ver': ver, 'owner': 'alice', 'now': st.eng.clock.t, 'secret': secret, 'attrs': attrs, 'obs': uid})
+        if uid is not None:
+            regs[uid] = {'uid': uid, 'ver': ver, 'now': st.eng.clock.t, 'secret': secret, 'attrs': attrs, 'state': E.State.PRE_ACTIVE.value}
+            row, oc = st.row(uid)
+            events.append({'e': 'row', 'uid': uid, 'otype_col': oc, 'obs': row})
+        return uid
+
+    def read_all(when, skip=()):
+        for uid in sorted(regs):
+            for ver in ((1, 0), (1, 4), (2, 0)):
+                obs = st.get(ver, uid)
+                events.append({'e': 'get', 'uid': uid, 'obs': obs, 'ver': ver})
+                oracle_get(ctx, regs[uid], obs, ver, when)
+                if uid in skip:
+                    continue
+                obs = st.attrs(ver, uid)
+                events.append({'e': 'attrs', 'ver': ver, 'uid': uid, 'obs': obs})
+                oracle_attrs(ctx, regs[uid], obs, ver, regs[uid]['state'], when, st.last_err)
+                ctx.cov['evaluations'] += 2
+
+    def multi(groups=(), names=(), asi=()):
+        out = [{'kind': 'group', 'idx': i, 'v': g} for i, g in enumerate(groups)]
+        out += [{'kind': 'name', 'idx': i, 'v': n, 't': 1} for i, n in enumerate(names)]
+        out += [{'kind': 'asi', 'idx': i, 'ns': a, 'd': b} for i, (a, b) in enumerate(asi)]
+        return out
+    try:
+        a = reg((1, 2), sym(b'\x11' * 16), multi(['backup'], ['shared-name'], [('ns', 'data')]))
+        b = reg((1, 4), sym(b'\x22' * 32), multi(['tier-1', 'backup'], ['own-name', 'shared-name-2'], [('zz', 'y'), ('ns', 'data')]))
+        c = reg((1, 0), {'k': 'opaque', 'ot': E.OpaqueDataType.NONE.value, 'value': b'o'}, multi(['backup', 'tier-1', 'backup'], [], [('ns', 'data'), ('ns', 'data')]))
+        read_all('scenario: after the three registrations')
+        ok1 = st.modify_sibling(a, 'group', 0, 'renamed')
+        ok2 = st.modify_sibling(a, 'asi', 0, 'changed')
+        events.append({'e': 'other'})
+        ctx.count('scenario.modify-sibling.%s' % ('ok' if ok1 and ok2 else 'refused'))
+        read_all('scenario: after ModifyAttribute on the first object', skip=(a,))
+        w = reg((1, 2), sym(bytes(range(16))), [{'kind': 'mask', 'idx': 0, 'z': 0x30}])
+        if st.activate((1, 2), w):
+            regs[w]['state'] = E.State.ACTIVE.value
+            events.append({'e': 'activate', 'uid': w})
+        for ver in ((1, 2), (2, 0)):
+            okg, created = st.wrapped_get_batch(ver, b, w)
+            events.append({'e': 'other'})
+            if created is not None:
+                events.append({'e': 'foreign'})
+            ctx.count('scenario.batch.wrapped-get+create.%s' % ('ok' if okg else 'refused'))
+        read_all('scenario: after the batch [wrapped Get, Create]', skip=(a,))
+        st.eng.restart()
+        events.append({'e': 'restart'})
+        read_all('scenario: after re-opening the database', skip=(a,))
     finally:
         st.close()
     return events
@@ -1101,8 +1248,9 @@ def run(ctx):
     hists = []
     # corpus first (known findings + past disagreements), one history
     hists.append(run_history(ctx, ctx.subrng('corpus'), der, 0, 30, big, forced=corpus()))
+    hists.append(scenario_history(ctx, der))
     n_hist = 45 if quick else 400
-    for h in range(1, n_hist + 1):
+    for h in range(2, n_hist + 2):
         hists.append(run_history(ctx, rng, der, h, rng.randint(14, 30), big))
     crng = ctx.subrng('convert')
     for _ in range(150 if quick else 1500):
